@@ -157,6 +157,29 @@ Definition valid_conf (c : conf) : Prop :=
   c_start c < c_end c /\ in_pool c (c_gw c) = false /\
   in_subnet c (c_start c) = true /\ in_subnet c (c_end c) = true.
 
+(** V4ServerConf.Validate as a test: newIPRange wants start < end, the
+    gateway must lie outside the pool, both ends of the pool inside the
+    subnet. *)
+Definition valid_conf_b (c : conf) : bool :=
+  (c_start c <? c_end c) && negb (in_pool c (c_gw c)) &&
+  in_subnet c (c_start c) && in_subnet c (c_end c).
+
+(** net.IPMask.Size: the number of leading ones of a canonical mask, 0 for
+    any other mask. *)
+Definition mask_len (m : N) : N :=
+  match find (fun k => m =? 4294967296 - 2 ^ (32 - k)) (map N.of_nat (seq 0 33)) with
+  | Some k => k
+  | None => 0
+  end.
+
+(** The configuration Validate derives from the four addresses of the
+    configuration file / the set_config request: the subnet is the prefix of
+    the gateway. *)
+Definition conf_of (start end_ gw mask : N) (lease : Z) (self : N) : conf :=
+  let size := 2 ^ (32 - mask_len mask) in
+  let lo := gw / size * size in
+  Conf start end_ lo (lo + size - 1) gw lease self.
+
 (** * Maps *)
 
 Definition upd {A} (f : N -> A) (k : N) (v : A) : N -> A :=
@@ -577,6 +600,20 @@ Definition static_remove (c : conf) (mac ip : N) (host : bytes) (s : state) : st
 
 (** A restart: a fresh server loads the file. *)
 Definition restart (c : conf) (s : state) : state := load c (disk s).
+
+(** handleDHCPSetConfig with the configuration [c'] (already accepted by
+    Validate): new, empty servers are created and the table is reloaded from
+    the file.  With [c' = c] this is [restart]. *)
+Definition set_config (c' : conf) (s : state) : state := load c' (disk s).
+
+Definition with_pool (c : conf) (a b : N) : conf :=
+  Conf a b (c_sub_lo c) (c_sub_hi c) (c_gw c) (c_lease c) (c_self c).
+
+(** The request as a whole, for a new pool in the same network: rejected
+    (nothing changes) when Validate rejects the configuration. *)
+Definition set_config_pool (c : conf) (a b : N) (s : state) : conf * state * bool :=
+  let c' := with_pool c a b in
+  if valid_conf_b c' then (c', set_config c' s, true) else (c, s, false).
 
 Inductive op :=
   | ODiscover (mac : N)
